@@ -90,16 +90,15 @@ def run(chk):
     if thorough:
         # binding self-test: a corrupted result must be rejected by the trace spec
         bad = [l for l in lines[:400]]
-        e = json.loads(bad[200])
-        for k in ("z", "bytes"):
-            if k in e and e[k]:
-                e[k][0] = (e[k][0] + 1) % 256
-                break
-        bad[200] = json.dumps(e)
+        # the first add/sub/mul event from position 200 on that carries a non-zero result: its lowest limb is changed
+        idx = next(i for i in range(200, len(bad)) if json.loads(bad[i]).get("ev") == "bin" and json.loads(bad[i]).get("z"))
+        e = json.loads(bad[idx])
+        e["z"][0] = (e["z"][0] + 1) % 4096
+        bad[idx] = json.dumps(e)
         fn = os.path.join(vlib.WORK, "c09_trace_bad.ndjson")
         vlib.write_lines(fn, bad)
         ok, un, _ = vlib.validate_trace("C09_Trace", "C09_Trace", fn, timeout=600, tag="c09bad")
-        chk.notes.append("binding self-test: corrupted event 201 %s" % ("REJECTED at %s" % un if not ok else "ACCEPTED (self-test failed)"))
+        chk.notes.append("binding self-test: corrupted result of one arithmetic event %s" % ("REJECTED at %s" % un if not ok else "ACCEPTED (self-test failed)"))
         if ok:
             raise vlib.ToolError("C09 binding self-test failed: corrupted trace accepted")
     chk.exhaustive = True
